@@ -37,6 +37,10 @@ def run(rep):
         yield "active_vertices_connected(graph)", "p", lambda s, a: G.active_vertices_connected(s, list(s.bool_array(4)), path_graph(4), use_graph_primitive=a)
         yield "active_vertices_connected(grid)", "p", lambda s, a: G.active_vertices_connected(s, s.bool_array((2, 3)), use_graph_primitive=a)
         yield "active_vertices_connected(acyclic)", "aux-only", lambda s, a: G.active_vertices_connected(s, list(s.bool_array(4)), path_graph(4), acyclic=True, use_graph_primitive=a)
+        for shp in ((2, 3), (1, 4), (4, 1), (1, 1), (2, 1)):
+            yield "active_vertices_connected(acyclic, grid %dx%d)" % shp, "aux-only", (lambda s, a, shp=shp: G.active_vertices_connected(s, s.bool_array(shp), acyclic=True, use_graph_primitive=a))
+        for shp in ((1, 4), (4, 1), (1, 1)):
+            yield "active_vertices_connected(grid %dx%d)" % shp, "p", (lambda s, a, shp=shp: G.active_vertices_connected(s, s.bool_array(shp), use_graph_primitive=a))
         yield "active_edges_single_cycle(graph)", "p", lambda s, a: G.active_edges_single_cycle(s, list(s.bool_array(3)), path_graph(4), use_graph_primitive=a)
         yield "active_edges_single_cycle(frame)", "p", lambda s, a: G.active_edges_single_cycle(s, BoolGridFrame(s, 1, 2), use_graph_primitive=a)
         yield "active_edges_single_path(graph)", "native-only", lambda s, a: G.active_edges_single_path(s, list(s.bool_array(3)), path_graph(4), use_graph_primitive=a)
@@ -76,7 +80,8 @@ def run(rep):
                         rep.evaluations += 1
                         native = any(_has_native(c) for c in s.constraints)
                         if gov == "aux-only":
-                            continue
+                            # whatever is asked for or configured, acyclic connectivity is never handed to the native operator
+                            want = False
                         if native != bool(want):
                             sig = "route:%s:%s-instead-of-%s" % (name, "native" if native else "auxiliary", "native" if want else "auxiliary")
                             if sig not in seen:
